@@ -89,7 +89,9 @@ func main() {
 		res.Write(f.Out)
 		return
 	}
-	defer rn.m.Close()
+	if rn.m != nil {
+		defer rn.m.Close()
+	}
 	if prop == "C17" {
 		rn.mainC17()
 	} else {
@@ -122,7 +124,12 @@ func (rn *runner) prepare() error {
 	os.Chmod(rn.helper, 0o755)
 	rn.m, err = common.StartModel(rn.f.Model)
 	if err != nil {
-		return fmt.Errorf("cannot start model: %v", err)
+		// the oracles that need nothing but the package under test still run; every comparison with the
+		// model is then reported as what it is: a correspondence that could not be established
+		rn.m = nil
+		rn.res.Notes = append(rn.res.Notes, "the extracted model cannot be started ("+err.Error()+"): direct oracles only")
+		rn.res.Violate(common.Violation{Kind: "correspondence", Oracle: "model-unavailable", Key: "model-unavailable",
+			Detail: "the extracted model could not be started, so the theorems cannot be tied to this tree: " + err.Error(), Input: map[string]string{}})
 	}
 	// can a child run as an unprivileged user and reach its files?
 	if os.Geteuid() == 0 {
@@ -151,6 +158,9 @@ func (rn *runner) prepare() error {
 }
 
 func (rn *runner) ask(req string) string {
+	if rn.m == nil {
+		return "MODEL-UNAVAILABLE"
+	}
 	rn.mmu.Lock()
 	defer rn.mmu.Unlock()
 	return rn.m.Ask1(req)
